@@ -198,6 +198,17 @@ def run(ctx):
                     run.instance(R3, {"fn": "try_decrypt_payload", "obligation": "self.%s := the decrypted value only (no clear-text envelope field, no other source)" % ".".join(path), "producers": sorted(map(str, pr))[:6]}, held=h)
                     if not h:
                         run.finding(Finding(R3, DEC, "self.%s after decryption does not come solely from the decrypted data" % ".".join(path), site=c.site_of(d, b), detail=str(sorted(map(str, pr)))[:300]))
+            # every read from the decrypting stream propagates its error (a failed chunk tag is an error, not end of data)
+            reads = [(b, t) for b, t in d.calls() if (t.get("f") or "").startswith("std::io::Read::")]
+            for b, t in reads:
+                g_ = cfg.call_guard(d, b)
+                okh = bool(g_.ok or g_.fail)
+                if okh and g_.fail:
+                    par = cfg.reach(d, starts=[dd for (_s, dd) in g_.fail], cut_nodes=cfg.error_return_blocks(d))
+                    okh = not any(bb_ in par for bb_ in cfg.return_blocks(d))
+                run.instance(R3, {"fn": "try_decrypt_payload", "obligation": "an error of %s on the decrypting reader is returned" % t["f"].split("::")[-1], "site": c.site_of(d, b)}, held=okh)
+                if not okh:
+                    run.finding(Finding(R3, DEC, "an error while reading the authenticated stream is swallowed (truncated or tampered ciphertext would be accepted)", site=c.site_of(d, b)))
             if rd:
                 re_ = set()
                 for b, _t in rd:
@@ -207,8 +218,8 @@ def run(ctx):
                 run.instance(R3, {"fn": "try_decrypt_payload", "obligation": "mode = 0 requires the whole authenticated stream to be read Ok (read_to_end)"}, held=h)
                 if not h:
                     run.finding(Finding(R3, DEC, "mode reset without reading the authenticated stream to its end", site=d.loc()))
-            else:
-                run.error("C10.R3: read_to_end not found in try_decrypt_payload")
+            elif not reads:
+                run.error("C10.R3: no read from the decrypting stream found in try_decrypt_payload")
     pk = c.LW + "slatepack::packer::Slatepacker::<'a>::deser_slatepack"
     pf = ctx.fn(pk)
     if pf:
